@@ -119,6 +119,7 @@ def call(case, G, lab, tr, full):
     else:
         fam, tau, gamma, k = case["family"], float(F(case["tau"])), float(F(case["gamma"])), case["k"]
         calls = case.setdefault("_calls", [])
+        order = {u: i for i, u in enumerate(G)}
 
         def ninf(G_, u, status):
             if fam == "twohop":
@@ -130,6 +131,7 @@ def call(case, G, lab, tr, full):
             return sum(1 for v in G_.neighbors(u) if status[v] == "I")
 
         def rate_function(G_, node, status, parameters):
+            calls.append(("rate", order[node], tuple(status[u] for u in G_)))
             s = status[node]
             if s == "I":
                 return gamma
@@ -154,8 +156,8 @@ def call(case, G, lab, tr, full):
                 for v in list(near):
                     near |= set(G_.neighbors(v))
                 near.discard(node)
-                return near
-            return set(G_.neighbors(node))
+                return sorted(near, key=lambda x: order[x])
+            return sorted(G_.neighbors(node), key=lambda x: order[x])
 
         with rngmod.scripted(tr):
             return EoN.Gillespie_complex_contagion(G, rate_function, transition_choice, get_influence_set, IC,
